@@ -1165,6 +1165,17 @@ class _CallMixin:
             return self.call_value(f, args, kwargs, node)
         if isinstance(recv, Ext):
             return self.call_ext(recv.name + "." + name, args, kwargs, node)
+        if isinstance(recv, Op) and recv.op == "superobj":
+            cinfo = self.prog.cls(recv.args[1].v)
+            for b in cinfo.bases:
+                bv = self.module_ns(cinfo.module.name).get(b.split(".")[0]) if "." not in b else None
+                if isinstance(bv, ClassV):
+                    f = self.class_attr(bv.info, name)
+                    if isinstance(f, FuncV):
+                        return self.call_func(f.info, recv.args[0], args, kwargs, node)
+            if name == "__init__":
+                return NONE          # object.__init__
+            raise AnalysisError("super().%s: no repository base class defines it (line %s)" % (name, getattr(node, "lineno", "?")))
         if isinstance(recv, Op) and recv.op == "enum" and name in ("value", "name"):
             return self.get_attr(recv, name)
         # value methods (str/bytes/int/opaque)
@@ -1986,6 +1997,8 @@ class _LoopMixin:
                 del self.loops[lid]
         for oid in list(self.heap):
             if oid not in heap:
+                if getattr(self.heap[oid], "shared", None) is not None:
+                    continue        # module / class level objects created by a lazy first use stay: their namespaces do
                 del self.heap[oid]
                 continue
             o = self.heap[oid]
@@ -2777,6 +2790,13 @@ class _ExtMixin:
 
     def x_operator_itemgetter(self, a, k, n):
         return Op("itemgetter", *a)
+
+    def x_super(self, a, k, n):
+        fr = self.frames[-1]
+        if a or fr.finfo is None or fr.finfo.cls is None or not fr.finfo.params:
+            raise AnalysisError("super() form not modelled (line %s)" % getattr(n, "lineno", "?"))
+        selfv = fr.env.get(fr.finfo.params[0])
+        return Op("superobj", selfv, Const(fr.finfo.cls.qual))
 
     def x_slice(self, a, k, n):
         if len(a) == 1:
